@@ -13,6 +13,14 @@ the same question at `Rat` (and the margin of the decision); only cases at least
 from every decision boundary are judged, the rest are counted.  Returned intersection points
 (floats = dyadic rationals) are judged by the Lean predicate `nearArc` up to 1e-9.  The latitude
 value is a float clause: judged against the exact value with the library's own ERROR_TOLERANCE.
+
+The model is the REPAIRED `point_within_gca` (fixes/C14-point-within-gca-vector-test.patch: the two
+sign tests of `OnArc` for undirected arcs).  On the unrepaired tree the longitude/latitude interval
+logic fails on arcs through / ending at / next to a pole (VIOLATION lines; minimised witnesses in
+corpus/C14/asis-*.json, Lean counterparts `asis_*`).  Two tolerance-policy issues are known
+findings (known_findings.d/C14.json); their signatures are computed from the input alone: the
+double-precision plane residual of the candidate point vs MACHINE_EPSILON, and an end point with
+|z| > 1 - ERROR_TOLERANCE that is not a pole.
 """
 
 from __future__ import annotations
@@ -71,6 +79,7 @@ def rotz(p, k=(3, 4, 5)):
 
 def fl(p):
     """correctly rounded floats of the exact unit vector (Python int/int division is correctly rounded)"""
+    assert p[3] > 0 and p[0] * p[0] + p[1] * p[1] + p[2] * p[2] == p[3] * p[3], "generator bug: not a unit vector"
     return [p[0] / p[3], p[1] / p[3], p[2] / p[3]]
 
 
@@ -207,6 +216,14 @@ def _u(p):
     return [int(p[0]), int(p[1]), int(p[2]), int(p[3])]
 
 
+def _fail(ctx, sig, what, inp, impl_out, model_out, clauses):
+    """record a spec failure; per signature only the first 100 are stored (all are counted)"""
+    n = ctx.extra.setdefault("spec_failures_by_signature", {})
+    n[sig] = n.get(sig, 0) + 1
+    if n[sig] <= 100:
+        ctx.fail(sig, what, inp, impl_out, model_out, clauses)
+
+
 def judge_onarc(ctx, impl, a, b, p, tag, k=None):
     d = ctx.driver
     valid, exact, cls, margin = (int(x) for x in d.ask("C14.onarc", *_v(a), *_v(b), *_v(p)).split())
@@ -232,14 +249,15 @@ def judge_onarc(ctx, impl, a, b, p, tag, k=None):
             continue
         vac = arc_class(A, B) + ("+pole-snapped-point" if impl.snapped(A, B, P) else "")
         if exact and got is False and impl.plane_residual(A, B, P) > impl.eps:
-            vac = "any/plane-residual>MACHINE_EPSILON"
+            vac = None
         if isinstance(got, str):
             what, kind = f"point_within_gca raises on a valid arc ({vac}, {qc} query, {name})", "raises"
         elif exact:
             what, kind = f"point_within_gca rejects a point that is exactly on the arc ({vac} arc, {name})", "on-arc-rejected"
         else:
             what, kind = f"point_within_gca accepts a point that is not on the arc ({qc}, {vac} arc, {name})", f"{qc}-accepted"
-        ctx.fail(f"C14/point_within_gca/{kind}/arc={vac}", what, dict(inp, variant=name, rot=list(k)), got, bool(exact), ["onArc_exact"])
+        sig = f"C14/point_within_gca/{kind}/arc={vac}" if vac else "C14/point_within_gca/on-arc-rejected/plane-residual>MACHINE_EPSILON"
+        _fail(ctx, sig, what, dict(inp, variant=name, rot=list(k)), got, bool(exact), ["onArc_exact"])
 
 
 def judge_meet(ctx, impl, a, b, c, d_, tag, k=None):
@@ -269,7 +287,7 @@ def judge_meet(ctx, impl, a, b, c, d_, tag, k=None):
             pts = np.asarray(impl.gca_gca_intersection(np.array([fl(A), fl(B)]), np.array([fl(C), fl(D)])))
             pts = pts.reshape(-1, 3) if pts.size else np.zeros((0, 3))
         except Exception as e:  # noqa: BLE001
-            ctx.fail(f"C14/gca_gca_intersection/raises/arcs={cls}", f"gca_gca_intersection raises {type(e).__name__}: {e}"[:160] + f" ({name})",
+            _fail(ctx, f"C14/gca_gca_intersection/raises/arcs={cls}", f"gca_gca_intersection raises {type(e).__name__}: {e}"[:160] + f" ({name})",
                      dict(inp, variant=name, rot=list(k)), None, count, ["intersections_exact"])
             continue
         got = [[float(v) for v in row] for row in pts]
@@ -277,10 +295,12 @@ def judge_meet(ctx, impl, a, b, c, d_, tag, k=None):
             kind = "crossing-not-reported" if len(got) < count else "spurious-intersection"
             res = impl.candidate_residual(A, B, C, D)
             if len(got) < count and res > impl.eps:
-                cls = "any/candidate-plane-residual>MACHINE_EPSILON"
+                cls = None
+                ctx.hit("meet:crossing-missed-by-plane-tolerance")
             what = (f"gca_gca_intersection reports {len(got)} point(s) for two arcs that have exactly {count} common point(s) "
                     f"({cls}; {name})")
-            ctx.fail(f"C14/gca_gca_intersection/{kind}/arcs={cls}", what + f" [candidate plane residual {res:.3g}]", dict(inp, variant=name, rot=list(k)), got, dict(count=count, direction=exact_pt),
+            sig = f"C14/gca_gca_intersection/{kind}/arcs={cls}" if cls else "C14/gca_gca_intersection/crossing-not-reported/candidate-plane-residual>MACHINE_EPSILON"
+            _fail(ctx, sig, what + f" [candidate plane residual {res:.3g}]", dict(inp, variant=name, rot=list(k)), got, dict(count=count, direction=exact_pt),
                      ["disjoint_none" if count == 0 else "crossing_one"])
             continue
         for row in got:
@@ -288,7 +308,7 @@ def judge_meet(ctx, impl, a, b, c, d_, tag, k=None):
             ctx.hit("meet:returned-point-checked")
             if v != "ok":
                 clauses = v.split(" ", 1)[1].split(",")
-                ctx.fail(f"C14/gca_gca_intersection/point-off-arc/arcs={cls}", f"returned intersection point is not on both arcs within 1e-9 ({v}; {name})",
+                _fail(ctx, f"C14/gca_gca_intersection/point-off-arc/arcs={cls}", f"returned intersection point is not on both arcs within 1e-9 ({v}; {name})",
                          dict(inp, variant=name, rot=list(k)), got, dict(count=count, direction=exact_pt), clauses)
 
 
@@ -330,7 +350,7 @@ def judge_extreme(ctx, impl, a, b, tag, tol, k=None):
             try:
                 got = float(impl.extreme_gca_latitude(np.array([fl(A), fl(B)]), which))
             except Exception as e:  # noqa: BLE001
-                ctx.fail(f"C14/extreme_gca_latitude/raises/arc={arc_class(A, B)}", f"extreme_gca_latitude raises {type(e).__name__}: {e}"[:160],
+                _fail(ctx, f"C14/extreme_gca_latitude/raises/arc={arc_class(A, B)}", f"extreme_gca_latitude raises {type(e).__name__}: {e}"[:160],
                          dict(inp, variant=name, rot=list(k), which=which), None, want[which], ["extreme_is_" + which])
                 continue
             err = abs(got - want[which])
@@ -343,7 +363,7 @@ def judge_extreme(ctx, impl, a, b, tag, tol, k=None):
                 sig = f"C14/extreme_gca_latitude/{which}/{branch}/arc={arc_class(A, B)}"
                 if impl.snapped(A, B):
                     sig = "C14/extreme_gca_latitude/end-point-snapped-to-pole"
-                ctx.fail(sig,
+                _fail(ctx, sig,
                          f"extreme_gca_latitude(..., '{which}') = {got!r} but the {which}imum latitude over the arc is {want[which]!r} "
                          f"(error {err:.3g} rad, {name})", dict(inp, variant=name, rot=list(k), which=which), got, want[which], ["extreme_is_" + which])
 
@@ -426,11 +446,11 @@ def run(ctx):
         ctx.hit("corpus")
         _judge_input(ctx, impl, json.loads(f.read_text())["input"], "corpus:" + f.stem)
     kinds = ARC_KINDS + ["near-pole"]
-    for _ in range(ctx.n(2500, 40000)):
+    for _ in range(ctx.n(12000, 400000)):
         a, b = gen_arc(rng, rng.choice(kinds))
         q = rng.choice(QUERY_KINDS + ["pole", "near-pole"])
         judge_onarc(ctx, impl, a, b, gen_query(rng, a, b, q), q)
-    for _ in range(ctx.n(1200, 20000)):
+    for _ in range(ctx.n(6000, 200000)):
         a, b = gen_arc(rng, rng.choice(kinds))
         if rng.random() < 0.7:
             if cross(a, b) == (0, 0, 0):
@@ -443,7 +463,7 @@ def run(ctx):
         if rng.random() < 0.5:
             a, b, c, d_ = c, d_, a, b
         judge_meet(ctx, impl, a, b, c, d_, tag)
-    for _ in range(ctx.n(1200, 20000)):
+    for _ in range(ctx.n(6000, 200000)):
         a, b = gen_arc(rng, rng.choice(kinds))
         judge_extreme(ctx, impl, a, b, "generated", impl.tol)
 
